@@ -508,7 +508,8 @@ TEXT = ("Held on every manager observed: ~1 000 (quick) / ~30 000 (thorough) man
         "(definitions, index supports, verify(), contents, object independence), a sample restored in a fresh "
         "interpreter under another hash seed with identical transcripts, followed by one-sided (independence) and "
         "mirrored (equivalence, shadow as referee) follow-up assignments. Exploration over sampled histories."
-        ' Index supports, index/task consistency and verify() of both managers are re-checked after every mirrored follow-up; a literal zoo (Python and numpy literals of every kind in every node class) is compared by typed structure and by contents.')
+        ' Index supports, index/task consistency and verify() of both managers are re-checked after every mirrored follow-up; a literal zoo (Python and numpy literals of every kind in every node class) is compared by typed structure and by contents.'
+        ' Managers pickled frozen / frozen-and-released / never frozen: refused and accepted follow-ups mirrored by outcome, contents and definitions.')
 NOTE = ("Trusted: the tracing containers' own pickling; the shadow as referee; the transcript comparison across "
         "processes.")
 TECHNIQUE = "runtime monitoring: pickle round-trip twin (in-process and in a fresh interpreter under another hash seed) compared by state, independence and mirrored follow-up assignments"
